@@ -1292,8 +1292,8 @@ namespace awkward {
       util::handle_error(err2, classname(), identities_.get());
 
       std::shared_ptr<IndexedOptionArray64> next =
-        std::make_shared<IndexedOptionArray64>(identities_,
-                                               parameters_,
+        std::make_shared<IndexedOptionArray64>(Identities::none(),
+                                               util::Parameters(),
                                                outindex,
                                                content());
       return std::make_shared<ListOffsetArrayOf<T>>(
